@@ -43,6 +43,9 @@ type Action struct {
 	Body    []byte
 	Chunked bool
 	Frame   []byte // xprotocol: complete response frame to send instead of the generic echo
+	// xprotocol reply: write the frame in two pieces, SplitPause apart (a peer that stalls in the middle of a frame)
+	SplitAt    int
+	SplitPause time.Duration
 }
 
 // Upstream is a scripted recording server. Script is called once per request (concurrently).
@@ -61,7 +64,7 @@ type Upstream struct {
 	accepted int32
 	closedCh chan struct{}
 	wg       sync.WaitGroup
-	Refuse   int32 // when 1, accepted connections are closed at once
+	Refuse   int32    // when 1, accepted connections are closed at once
 	goAways  []string // HTTP/2: GOAWAY frames with an error code that the reference server sent (connection errors it raised against the proxy)
 }
 
@@ -630,7 +633,16 @@ func (u *Upstream) serveX(id int, c net.Conn) {
 				write(out)
 				write(out)
 			default:
-				write(out)
+				if a.SplitAt > 0 && a.SplitAt < len(out) {
+					// one frame: nothing else (a heartbeat acknowledgement) may be written in between
+					wmu.Lock()
+					_, _ = c.Write(out[:a.SplitAt])
+					time.Sleep(a.SplitPause)
+					_, _ = c.Write(out[a.SplitAt:])
+					wmu.Unlock()
+				} else {
+					write(out)
+				}
 			}
 			if a.Kind == "reply-then-close" {
 				_ = c.Close()
